@@ -16,13 +16,39 @@
 //!   mutants are nearly always caught by the first Merkle or transcript check on both sides; the
 //!   prover faults are what isolates the fold chain / final polynomial / PoW constraints.
 //!
+//! * structural sweep (PCS boundary): every array node of the document at every depth (query
+//!   proofs, commit-phase commits / PoW witnesses / openings, sibling and Merkle-path lists, final
+//!   polynomial, the hiding PCS's random opened values per round / matrix / point, input-proof
+//!   batches and their opened rows; the claims: rounds, matrices, points, values; Merkle caps)
+//!   gets drop-last, drop-first, duplicate-last, empty, swap-first-two; array / object nodes are
+//!   set to `null` and `null` nodes to `[]` / `0` (optional nodes; the current proof types have
+//!   none, so these only count as not deserialisable). Operations on the nesting of `claimed`
+//!   (rounds, matrices, points) are applied to the statement's nesting too (rounds also to
+//!   `commitments`), since both verifier interfaces take points and values zipped. For every
+//!   mutant that still deserialises: native verdict vs verdict of the circuit REBUILT for the
+//!   mutant (builder error or builder panic = reject; panics are counted, C15 owns "no panic").
+//!   Signatures `structural/circuit-accepts-native-rejects/<flavor>/<path class>` and
+//!   `structural/circuit-rejects-native-accepts/<flavor>/<path class>`. Thorough tier: all nodes;
+//!   quick tier: up to `QUICK_STRUCT_PER_CLASS` nodes per (parameter point, path class, operation),
+//!   always the first and the last one.
+//! * structural prover faults (`SFault`, `StreamEdits` in `core.inc.rs`): a document-level change
+//!   of the claims / random opened values also changes the Fiat-Shamir transcript, so the verdicts
+//!   agree on "reject" for the boring reason. Here the native prover itself opens a matrix at one
+//!   point fewer (made-up claimed values for the missing point are bound into the transcript) or
+//!   one point more than the statement has, or leaves out rows / a matrix / a round of
+//!   random-codeword openings, with its transcript edited to be exactly the one the verifier
+//!   derives from its view (self-checked: the native verifier replaying the same edits accepts what
+//!   the prover really proved). Path class `prover-<fault>:<array node whose length disagrees>`.
+//!
 //! The oracle is agreement of the two verdicts. Layout: `main.rs` (grid, scheduling, reporting,
 //! replay) + `core.inc.rs` (prover, native verdict, circuit construction/packing/run; `include!`d
 //! once per flavor: BabyBear and KoalaBear `TwoAdicFriPcs`, KoalaBear `HidingFriPcs` over salted
 //! and over plain MMCSs).
 //!
 //! Extra options: `--only <i>` (one grid point), `--params <file.json>` (one explicit `Params`),
-//! `--honest-only 1` (print the honest stage of every grid point and stop).
+//! `--honest-only 1` (print the honest stage of every grid point and stop; with `--dump <i>` also
+//! the document of grid point i), `--no-structural 1` / `--structural-only 1`,
+//! `--struct-per-class <n>` (quick-tier sample size, 0 = all nodes).
 
 use std::collections::BTreeMap;
 use std::sync::Mutex;
@@ -222,6 +248,268 @@ pub fn path_text(path: &[Seg], strip: bool, flavor: &str) -> String {
     s
 }
 
+// ---------------------------------------------------------------------------------------------
+// Structural mutants of the document (array / optional nodes)
+// ---------------------------------------------------------------------------------------------
+
+/// Structural operation on one node of the document.
+#[derive(Clone, Copy, Debug, PartialEq, Eq, PartialOrd, Ord)]
+pub enum SOp {
+    DropLast,
+    DropFirst,
+    DupLast,
+    Empty,
+    Swap01,
+    /// array / object node replaced by `null` (deserialises only if the node is optional)
+    ToNull,
+    /// `null` node replaced by `[]` / by `0` (deserialises only if the node is optional)
+    NullToArr,
+    NullToNum,
+}
+
+pub const ARRAY_OPS: [SOp; 5] = [SOp::DropLast, SOp::DropFirst, SOp::DupLast, SOp::Empty, SOp::Swap01];
+
+impl SOp {
+    pub fn name(self) -> &'static str {
+        match self {
+            SOp::DropLast => "drop-last",
+            SOp::DropFirst => "drop-first",
+            SOp::DupLast => "duplicate-last",
+            SOp::Empty => "empty",
+            SOp::Swap01 => "swap-first-two",
+            SOp::ToNull => "to-null",
+            SOp::NullToArr => "null-to-array",
+            SOp::NullToNum => "null-to-number",
+        }
+    }
+    pub fn from_name(s: &str) -> Option<SOp> {
+        [SOp::DropLast, SOp::DropFirst, SOp::DupLast, SOp::Empty, SOp::Swap01, SOp::ToNull, SOp::NullToArr, SOp::NullToNum]
+            .into_iter()
+            .find(|o| o.name() == s)
+    }
+    /// Apply to a vector; false = the operation is not applicable.
+    pub fn apply_vec<T: Clone>(self, v: &mut Vec<T>) -> bool {
+        match self {
+            SOp::DropLast => v.pop().is_some(),
+            SOp::DropFirst => {
+                if v.is_empty() {
+                    return false;
+                }
+                v.remove(0);
+                true
+            }
+            SOp::DupLast => match v.last().cloned() {
+                Some(x) => {
+                    v.push(x);
+                    true
+                }
+                None => false,
+            },
+            SOp::Empty => {
+                if v.is_empty() {
+                    return false;
+                }
+                v.clear();
+                true
+            }
+            SOp::Swap01 => {
+                if v.len() < 2 {
+                    return false;
+                }
+                v.swap(0, 1);
+                true
+            }
+            _ => false,
+        }
+    }
+}
+
+#[derive(Clone, Debug)]
+pub struct SMut {
+    pub path: Vec<Seg>,
+    pub op: SOp,
+}
+
+/// Apply a structural operation to the node at `path`; false = no change / not applicable.
+pub fn apply_sop(doc: &mut Value, path: &[Seg], op: SOp) -> bool {
+    let node = leaf_mut(doc, path);
+    match (op, &mut *node) {
+        (SOp::ToNull, Value::Array(_) | Value::Object(_)) => {
+            *node = Value::Null;
+            true
+        }
+        (SOp::NullToArr, Value::Null) => {
+            *node = json!([]);
+            true
+        }
+        (SOp::NullToNum, Value::Null) => {
+            *node = json!(0);
+            true
+        }
+        (SOp::Swap01, Value::Array(a)) if a.len() >= 2 && a[0] == a[1] => false,
+        (_, Value::Array(a)) => op.apply_vec(a),
+        _ => false,
+    }
+}
+
+/// Is this the statement-level "rounds" node? The commitments and the claims are zipped by the
+/// verifier interfaces, so the rounds operation is applied to both (and enumerated once, at
+/// `claimed`).
+pub fn is_rounds_node(path: &[Seg]) -> bool {
+    path.len() == 1 && path[0] == Seg::Key("claimed".into())
+}
+
+/// All structural mutants of a document: the five array operations on every array node (those
+/// that change it), `to-null` on every array / object node, `null-to-*` on every null node.
+pub fn structural_mutants(doc: &Value) -> Vec<SMut> {
+    fn go(v: &Value, cur: &mut Vec<Seg>, out: &mut Vec<SMut>) {
+        let skip = cur.len() == 1 && cur[0] == Seg::Key("commitments".into());
+        match v {
+            Value::Array(a) => {
+                if !skip {
+                    let n = a.len();
+                    if n >= 1 {
+                        out.push(SMut { path: cur.clone(), op: SOp::DropLast });
+                        out.push(SMut { path: cur.clone(), op: SOp::DupLast });
+                    }
+                    if n >= 2 {
+                        out.push(SMut { path: cur.clone(), op: SOp::DropFirst });
+                        out.push(SMut { path: cur.clone(), op: SOp::Empty });
+                        if a[0] != a[1] {
+                            out.push(SMut { path: cur.clone(), op: SOp::Swap01 });
+                        }
+                    }
+                    out.push(SMut { path: cur.clone(), op: SOp::ToNull });
+                }
+                for (i, x) in a.iter().enumerate() {
+                    cur.push(Seg::Idx(i));
+                    go(x, cur, out);
+                    cur.pop();
+                }
+            }
+            Value::Object(o) => {
+                if !cur.is_empty() {
+                    out.push(SMut { path: cur.clone(), op: SOp::ToNull });
+                }
+                for (k, x) in o {
+                    cur.push(Seg::Key(k.clone()));
+                    go(x, cur, out);
+                    cur.pop();
+                }
+            }
+            Value::Null => {
+                out.push(SMut { path: cur.clone(), op: SOp::NullToArr });
+                out.push(SMut { path: cur.clone(), op: SOp::NullToNum });
+            }
+            _ => {}
+        }
+    }
+    let mut out = vec![];
+    go(doc, &mut vec![], &mut out);
+    out
+}
+
+/// Quick tier: per (path class, operation) the first node, the last node and one seeded node in
+/// between; every path class and every operation applicable to it stays covered.
+pub fn sample_structural(all: Vec<SMut>, flavor: &str, rng: &mut SmallRng, per_class: usize) -> Vec<SMut> {
+    let mut groups: BTreeMap<(String, SOp), Vec<usize>> = BTreeMap::new();
+    for (i, m) in all.iter().enumerate() {
+        groups.entry((path_text(&m.path, true, flavor), m.op)).or_default().push(i);
+    }
+    let mut keep = std::collections::BTreeSet::new();
+    for (_, idxs) in groups {
+        if per_class == 0 || idxs.len() <= per_class {
+            keep.extend(idxs.iter().copied());
+            continue;
+        }
+        keep.insert(idxs[0]);
+        if per_class >= 2 {
+            keep.insert(*idxs.last().unwrap());
+        }
+        for _ in 2..per_class {
+            keep.insert(idxs[rng.random_range(0..idxs.len())]);
+        }
+    }
+    all.into_iter().enumerate().filter(|(i, _)| keep.contains(i)).map(|(_, m)| m).collect()
+}
+
+/// Structural faults injected inside the native prover, with the Fiat-Shamir transcript edited
+/// so that it is the transcript the verifier derives from its (structurally different) view.
+#[derive(Clone, Debug, PartialEq, Eq, Serialize, Deserialize)]
+#[serde(rename_all = "kebab-case")]
+pub enum SFault {
+    /// The prover opens matrix (b, m) at all its points but the last; the statement keeps the
+    /// point, with made-up claimed values that are bound into the transcript.
+    DropPoint { b: usize, m: usize },
+    /// Honest opening; the proof lacks the last row of random-codeword evaluations of matrix
+    /// (b, m) and the transcript does not contain it (hiding PCS).
+    DropRandRow { b: usize, m: usize },
+    /// The same for all rows of the last matrix of round b / of all matrices of the last round.
+    DropRandMatrix { b: usize },
+    DropRandRound,
+    /// The prover opens matrix (b, m) at one more point than the statement has; the extra
+    /// evaluations are in neither the claims nor the transcript.
+    ExtraPoint { b: usize, m: usize },
+}
+
+impl SFault {
+    /// (class, array node of the verifier's view whose length disagrees with the statement)
+    pub fn class(&self, hiding: bool) -> String {
+        let rov = "opening_proof.random_opened_values";
+        match self {
+            SFault::DropPoint { .. } => format!("prover-drop-point:{}", if hiding { format!("{rov}[][]") } else { "claimed[][]".into() }),
+            SFault::DropRandRow { .. } => format!("prover-drop-random-row:{rov}[][]"),
+            SFault::DropRandMatrix { .. } => format!("prover-drop-random-matrix:{rov}[]"),
+            SFault::DropRandRound => format!("prover-drop-random-round:{rov}"),
+            SFault::ExtraPoint { .. } => format!("prover-extra-point:{}", if hiding { format!("{rov}[][]") } else { "claimed[][]".into() }),
+        }
+    }
+}
+
+pub fn structural_faults(p: &Params) -> Vec<SFault> {
+    let hiding = p.flavor.contains("hiding");
+    let mut v = vec![];
+    for (b, batch) in p.batches.iter().enumerate() {
+        for (m, s) in batch.iter().enumerate() {
+            if s.points == 3 {
+                v.push(SFault::DropPoint { b, m });
+            } else {
+                v.push(SFault::ExtraPoint { b, m });
+            }
+            if hiding {
+                v.push(SFault::DropRandRow { b, m });
+            }
+        }
+        if hiding {
+            v.push(SFault::DropRandMatrix { b });
+        }
+    }
+    if hiding {
+        v.push(SFault::DropRandRound);
+    }
+    v
+}
+
+pub struct SOutcome {
+    pub idx: usize,
+    pub native: V,
+    pub circuit: V,
+    /// where the circuit verdict was produced: "build" (builder error), "build-panic", "run",
+    /// "run-panic"
+    pub stage: &'static str,
+}
+
+#[derive(Default)]
+pub struct StructOut {
+    pub outcomes: Vec<SOutcome>,
+    /// indices of mutants that do not deserialise / do not change the document
+    pub deser_fail: Vec<usize>,
+    pub noop: Vec<usize>,
+    /// prover faults whose transcript edit could not be realised
+    pub not_landed: u64,
+    pub harness_error: Option<String>,
+}
+
 pub fn is_shape_leaf(path: &[Seg]) -> bool {
     path.last() == Some(&Seg::Key("log_arity".into()))
 }
@@ -251,6 +539,10 @@ pub struct Prepared {
     pub n_ops: usize,
     pub n_mmcs_ops: usize,
     pub n_faults: usize,
+    /// structural mutants to run (all of them in the thorough tier, a covering sample otherwise)
+    pub smuts: Vec<SMut>,
+    pub smuts_total: usize,
+    pub sfaults: Vec<SFault>,
 }
 
 impl Prepared {
@@ -268,6 +560,9 @@ impl Prepared {
             n_ops: 0,
             n_mmcs_ops: 0,
             n_faults: 0,
+            smuts: vec![],
+            smuts_total: 0,
+            sfaults: vec![],
         }
     }
     /// Coarse parameter class used in signatures.
@@ -590,6 +885,18 @@ fn sweep(prep: &Prepared, lo: usize, hi: usize, thorough: bool, seed: u64) -> Sw
 fn sweep_faults(prep: &Prepared, lo: usize, hi: usize) -> FaultOut {
     dispatch!(prep.params.flavor.as_str(), sweep_faults(prep, lo, hi))
 }
+fn sweep_struct(prep: &Prepared, lo: usize, hi: usize) -> StructOut {
+    dispatch!(prep.params.flavor.as_str(), sweep_struct(prep, lo, hi))
+}
+fn sweep_sfaults(prep: &Prepared, lo: usize, hi: usize) -> StructOut {
+    dispatch!(prep.params.flavor.as_str(), sweep_sfaults(prep, lo, hi))
+}
+fn replay_struct(p: &Params, m: &SMut) -> Result<SOutcome, String> {
+    dispatch!(p.flavor.as_str(), replay_struct(p, m))
+}
+fn replay_sfault(p: &Params, f: &SFault) -> Result<SOutcome, String> {
+    dispatch!(p.flavor.as_str(), replay_sfault(p, f))
+}
 fn replay_one(p: &Params, path: &[Seg], newv: u64) -> Result<(V, V), String> {
     dispatch!(p.flavor.as_str(), replay_one(p, path, newv))
 }
@@ -758,6 +1065,9 @@ fn thorough_grid(seed: u64) -> Vec<Params> {
 }
 
 const QUICK_RANDOM_POINTS: usize = 36;
+/// Quick tier: structural mutants per (parameter point, path class, operation).
+const QUICK_STRUCT_PER_CLASS: usize = 16;
+const STRUCT_CHUNK: usize = 40;
 const THOROUGH_RANDOM_POINTS: usize = 720;
 
 // ---------------------------------------------------------------------------------------------
@@ -918,6 +1228,55 @@ fn judge_fault(prep: &Prepared, o: &FaultOutcome) -> CaseResult {
     verdict_counters(r, &o.native, &o.circuit)
 }
 
+/// Oracle of the structural sweep (document mutants and structural prover faults): agreement of
+/// the native verdict with the verdict of the circuit rebuilt for the mutant. A panic of the
+/// circuit builder / runner is a reject here (C15 owns "no panic") and is counted.
+fn judge_struct(prep: &Prepared, class: &str, case_id: &str, kind: &str, case: Value, o: &SOutcome) -> CaseResult {
+    let flavor = &prep.params.flavor;
+    let key = format!("{:x}|S|{case_id}", fnv(&prep.key));
+    let (n, c) = (o.native.accepts(), o.circuit.accepts());
+    let pre = format!("structural/{flavor}/{class}");
+    let r = if n == c {
+        CaseResult::held(key, true)
+            .count(if n { "structural/agree/both-accept" } else { "structural/agree/both-reject" }, 1)
+            .count(format!("{pre}/{}", if n { "both-accept" } else { "native-reject+circuit-reject" }), 1)
+    } else {
+        let dir = if c { "circuit-accepts-native-rejects" } else { "circuit-rejects-native-accepts" };
+        let sig = match prep.honest_finding() {
+            Some(f) => f,
+            None => format!("structural/{dir}/{flavor}/{class}"),
+        };
+        CaseResult::violated(key, sig, violation_detail(prep, kind, case, &o.native, &o.circuit))
+            .count(format!("{pre}/{dir}"), 1)
+    };
+    let mut r = r.count(format!("{pre}/deserialised"), 1).count(format!("structural/circuit-verdict-from/{}", o.stage), 1);
+    if o.stage == "build-panic" {
+        r = r.count(format!("{pre}/builder-panic"), 1);
+        if let V::Panic(site) = &o.circuit {
+            r = r.count(format!("structural/builder-panic-site/{site}"), 1);
+        }
+    }
+    if let V::Reject(e) = &o.native {
+        r = r.count(format!("structural/native-reject/{e}"), 1);
+    }
+    if let V::Panic(site) = &o.native {
+        r = r.count(format!("structural/native-panic/{site}"), 1);
+    }
+    if let V::Reject(e) = &o.circuit {
+        r = r.count(format!("structural/circuit-reject/{e}"), 1);
+    }
+    r
+}
+
+fn smut_case(prep: &Prepared, m: &SMut) -> (String, String, Value) {
+    let flavor = &prep.params.flavor;
+    let class = path_text(&m.path, true, flavor);
+    let full = path_text(&m.path, false, flavor);
+    let id = format!("{full}|{}", m.op.name());
+    let case = json!({"path": m.path, "path_text": full, "op": m.op.name()});
+    (class, id, case)
+}
+
 /// Verdict on the honest stage of one parameter point (None = fine, go on with the sweep).
 fn honest_result(prep: &Prepared) -> Option<CaseResult> {
     match &prep.honest {
@@ -956,6 +1315,30 @@ fn replay(path: &std::path::Path) -> Vec<CaseResult> {
         Some("honest") => {
             vec![honest_result(&prep).unwrap_or_else(|| CaseResult::held("replay", true))]
         }
+        Some("structural") => {
+            let segs: Vec<Seg> = serde_json::from_value(d["case"]["path"].clone()).expect("path");
+            let op = SOp::from_name(d["case"]["op"].as_str().unwrap_or("")).expect("op");
+            let m = SMut { path: segs, op };
+            match replay_struct(&params, &m) {
+                Ok(o) => {
+                    println!("replay: native={} circuit={} (circuit verdict from: {})", o.native.text(), o.circuit.text(), o.stage);
+                    let (class, id, case) = smut_case(&prep, &m);
+                    vec![judge_struct(&prep, &class, &id, "structural", case, &o)]
+                }
+                Err(e) => vec![CaseResult::inconclusive("replay", e)],
+            }
+        }
+        Some("structural-prover-fault") => {
+            let f: SFault = serde_json::from_value(d["case"]["fault"].clone()).expect("fault");
+            match replay_sfault(&params, &f) {
+                Ok(o) => {
+                    println!("replay: native={} circuit={} (circuit verdict from: {})", o.native.text(), o.circuit.text(), o.stage);
+                    let class = f.class(params.flavor.contains("hiding"));
+                    vec![judge_struct(&prep, &class, &json!(f).to_string(), "structural-prover-fault", json!({"fault": f}), &o)]
+                }
+                Err(e) => vec![CaseResult::inconclusive("replay", e)],
+            }
+        }
         Some("prover-fault") => match replay_fault(&params, &d["case"]["fault"]) {
             Ok((class, n, c)) => {
                 println!("replay: native={} circuit={}", n.text(), c.text());
@@ -984,6 +1367,8 @@ fn replay(path: &std::path::Path) -> Vec<CaseResult> {
 enum Task {
     Leaves(usize, usize, usize),
     Faults(usize, usize, usize),
+    Struct(usize, usize, usize),
+    SFaults(usize, usize, usize),
 }
 
 fn main() {
@@ -997,11 +1382,20 @@ fn main() {
          PCS opening at one parameter point, or (b) one fault injected inside the native prover (claimed \
          evaluation / final-polynomial coefficient shifted, PoW witness not ground) so that transcript and \
          Merkle openings stay consistent; native Pcs::verify verdict vs verdict of the in-circuit verifier \
-         compiled for the honest shape (rebuilt from the mutant for log_arity leaves); non-trivial = both \
-         verdicts were obtained; distinct by (parameter point, leaf path | fault)",
+         compiled for the honest shape (rebuilt from the mutant for log_arity leaves), or (c) one structural \
+         mutant of the same document (every array node of proof and claims, all depths: drop-last, drop-first, \
+         duplicate-last, empty, swap-first-two; array/object -> null and null -> []/0 for optional nodes; the \
+         nesting of the claims changes the statement's rounds/matrices/points alike; thorough tier: all nodes, \
+         quick tier: first/last/one seeded node per path class and operation) or (d) one structural fault \
+         inside the native prover (a point of a matrix not opened / one point too many opened / rows, a matrix or \
+         a round of random-codeword openings left out, with the transcript edited to be the one the verifier \
+         derives from its view), each judged by native verdict vs verdict of the circuit REBUILT for the mutant \
+         (builder error or panic = reject); non-trivial = both verdicts were obtained; distinct by (parameter \
+         point, leaf path | fault | node path + operation)",
     );
     rep.assume("p3-fri 0.6.3 native prover/verifier is the reference (oracle is agreement, not absolute correctness)");
     rep.assume("the pre-PCS transcript (honest commitments observed, zeta sampled) is identical and un-mutated on both sides; opening points are zeta and zeta*g");
+    rep.assume("structural mutants of the claims' nesting (rounds / matrices / points) change the statement's nesting in the same way on both sides, because both verifier interfaces take points and claimed values zipped; the in-circuit transcript observes, per claimed point, the claimed values and then that point's row of random-codeword openings if the proof has one (the walk of verifier/batch_stark.rs observe_opened_values_circuit)");
     rep.assume("circuit accept = CircuitRunner::run Ok with the repo's packing (Recursive::get_values/get_private_values, set_*fri_mmcs_private_data); a panic on either side counts as reject and is recorded");
     if let Some(p) = &args.replay {
         let rs = replay(p);
@@ -1019,9 +1413,26 @@ fn main() {
     }
 
     // Stage 1: honest proofs, native check, circuit build + run.
+    let no_struct = args.extra.contains_key("no-structural");
+    let struct_only = args.extra.contains_key("structural-only");
+    let per_class: usize = args.extra.get("struct-per-class").and_then(|s| s.parse().ok()).unwrap_or(QUICK_STRUCT_PER_CLASS);
+    let seed0 = args.seed;
     let prepared: Vec<Prepared> = par_map(&grid, args.threads, |p| {
         match guarded(|| prepare(p)) {
-            Ok(x) => x,
+            Ok(mut x) => {
+                if !no_struct && matches!(&x.honest, Honest::Verdicts(V::Accept, _)) {
+                    let all = structural_mutants(&x.doc);
+                    x.smuts_total = all.len();
+                    x.smuts = if thorough {
+                        all
+                    } else {
+                        let mut rng = case_rng(seed0, "c07-struct-sample", fnv(&x.key));
+                        sample_structural(all, &p.flavor, &mut rng, per_class)
+                    };
+                    x.sfaults = structural_faults(p);
+                }
+                x
+            }
             Err(e) => {
                 let mut x = Prepared::empty(p);
                 x.honest = Honest::Harness(format!("panic {}", panic_site(&e)));
@@ -1051,6 +1462,7 @@ fn main() {
         if let Some(r) = hr {
             rep.add(r);
         }
+        let tasks_before = tasks.len();
         if native_ok {
             // (also for points whose honest proof the circuit rejects: the mutants are still
             // compared; disagreements there carry the signature of the honest-stage finding)
@@ -1074,6 +1486,20 @@ fn main() {
                 tasks.push(Task::Faults(gi, lo, (lo + fchunk).min(prep.n_faults)));
                 lo += fchunk;
             }
+            if struct_only {
+                tasks.truncate(tasks_before);
+            }
+            for m in &prep.smuts {
+                rep.observe("structural_path_classes", format!("{}:{}", if p.flavor.contains("hiding") { p.flavor.as_str() } else { "plain" }, path_text(&m.path, true, &p.flavor)));
+            }
+            let mut lo = 0;
+            while lo < prep.smuts.len() {
+                tasks.push(Task::Struct(gi, lo, (lo + STRUCT_CHUNK).min(prep.smuts.len())));
+                lo += STRUCT_CHUNK;
+            }
+            if !prep.sfaults.is_empty() {
+                tasks.push(Task::SFaults(gi, 0, prep.sfaults.len()));
+            }
         }
         if samples < 5 && matches!(prep.honest, Honest::Verdicts(V::Accept, V::Accept)) && gi % 3 == 1 {
             samples += 1;
@@ -1083,6 +1509,9 @@ fn main() {
         }
     }
     if args.extra.contains_key("honest-only") {
+        if let Some(i) = args.extra.get("dump").and_then(|s| s.parse::<usize>().ok()) {
+            println!("{}", serde_json::to_string(&prepared[i].doc).unwrap());
+        }
         for p in &prepared {
             println!("{} leaves={} faults={} arities={:?} ops={} build={}ms run={}us native={}us honest={:?}", p.key, p.leaves.len(), p.n_faults, p.log_arities, p.n_ops, p.build_ms, p.run_us, p.native_us, p.honest);
         }
@@ -1093,6 +1522,9 @@ fn main() {
         match *t {
             Task::Leaves(gi, lo, hi) => (hi - lo) as u64 * (prepared[gi].run_us + prepared[gi].native_us).max(300),
             Task::Faults(gi, lo, hi) => (hi - lo) as u64 * (prepared[gi].run_us + prepared[gi].native_us + 3000),
+            // circuit rebuilt per mutant (about half of the mutants do not deserialise)
+            Task::Struct(gi, lo, hi) => (hi - lo) as u64 * (prepared[gi].run_us + prepared[gi].native_us + prepared[gi].n_ops as u64 * 2) / 2,
+            Task::SFaults(gi, lo, hi) => (hi - lo) as u64 * (prepared[gi].run_us + prepared[gi].native_us + prepared[gi].n_ops as u64 * 2 + 3000),
         }
     };
     tasks.sort_by_key(|t| std::cmp::Reverse(cost(t)));
@@ -1105,6 +1537,11 @@ fn main() {
         deser: u64,
         faults_run: u64,
         faults_not_landed: u64,
+        s_done: u64,
+        s_deser: u64,
+        s_noop: u64,
+        sf_run: u64,
+        sf_not_landed: u64,
         err: Option<String>,
     }
     let stats: Mutex<BTreeMap<usize, Stat>> = Mutex::new(BTreeMap::new());
@@ -1146,6 +1583,63 @@ fn main() {
                     e.err = out.harness_error.clone();
                 }
             }
+            Task::Struct(gi, lo, hi) => {
+                let prep = &prepared[gi];
+                let out = sweep_struct(prep, lo, hi);
+                let flavor = &prep.params.flavor;
+                for o in &out.outcomes {
+                    let m = &prep.smuts[o.idx];
+                    let (class, id, case) = smut_case(prep, m);
+                    rs.push(judge_struct(prep, &class, &id, "structural", case, o).count(format!("structural/op/{}", m.op.name()), 1));
+                }
+                if let Some(e) = &out.harness_error {
+                    rs.push(CaseResult::inconclusive(format!("{}|struct{lo}", prep.key), format!("harness: {e}")));
+                }
+                {
+                    let mut rep = rep_m.lock().unwrap();
+                    for i in lo..hi {
+                        let class = path_text(&prep.smuts[i].path, true, flavor);
+                        rep.bump(&format!("structural/{flavor}/{class}/enumerated"), 1);
+                    }
+                    for i in &out.deser_fail {
+                        let class = path_text(&prep.smuts[*i].path, true, flavor);
+                        rep.bump(&format!("structural/{flavor}/{class}/not-deserialisable"), 1);
+                        rep.bump(&format!("structural/not-deserialisable/op/{}", prep.smuts[*i].op.name()), 1);
+                    }
+                }
+                let mut st = stats.lock().unwrap();
+                let e = st.entry(gi).or_default();
+                e.s_done += out.outcomes.len() as u64;
+                e.s_deser += out.deser_fail.len() as u64;
+                e.s_noop += out.noop.len() as u64;
+                if out.harness_error.is_some() {
+                    e.err = out.harness_error.clone();
+                }
+            }
+            Task::SFaults(gi, lo, hi) => {
+                let prep = &prepared[gi];
+                let out = sweep_sfaults(prep, lo, hi);
+                let hiding = prep.params.flavor.contains("hiding");
+                for o in &out.outcomes {
+                    let f = &prep.sfaults[o.idx];
+                    let class = f.class(hiding);
+                    rs.push(
+                        judge_struct(prep, &class, &json!(f).to_string(), "structural-prover-fault", json!({"fault": f}), o)
+                            .count(format!("structural/{}/{class}/enumerated", prep.params.flavor), 1)
+                            .count(format!("structural/prover-faults/native:{}", o.native.text()), 1),
+                    );
+                }
+                if let Some(e) = &out.harness_error {
+                    rs.push(CaseResult::inconclusive(format!("{}|sfaults{lo}", prep.key), format!("harness: {e}")));
+                }
+                let mut st = stats.lock().unwrap();
+                let e = st.entry(gi).or_default();
+                e.sf_run += out.outcomes.len() as u64;
+                e.sf_not_landed += out.not_landed;
+                if out.harness_error.is_some() {
+                    e.err = out.harness_error.clone();
+                }
+            }
         }
         // stream into the report (bounded memory in the thorough tier)
         rep_m.lock().unwrap().add_all(rs);
@@ -1159,10 +1653,14 @@ fn main() {
     for (gi, prep) in prepared.iter().enumerate() {
         let st = stats.get(&gi).cloned().unwrap_or_default();
         let swept = matches!(&prep.honest, Honest::Verdicts(V::Accept, _));
+        let struct_exhaustive = prep.smuts.len() == prep.smuts_total
+            && (st.s_done + st.s_deser + st.s_noop) as usize == prep.smuts_total
+            && (st.sf_run + st.sf_not_landed) as usize == prep.sfaults.len();
         let exhaustive = swept
             && st.err.is_none()
-            && st.mutated as usize == prep.leaves.len()
-            && (st.faults_run + st.faults_not_landed) as usize == prep.n_faults;
+            && (struct_only || st.mutated as usize == prep.leaves.len())
+            && (struct_only || (st.faults_run + st.faults_not_landed) as usize == prep.n_faults)
+            && (no_struct || !thorough || struct_exhaustive);
         all_exhaustive &= exhaustive;
         rep.bump("mutants-skipped/deserialisation-failed", st.deser);
         rep.bump("leaves/total", prep.leaves.len() as u64);
@@ -1170,9 +1668,20 @@ fn main() {
         rep.bump("prover-faults/total", prep.n_faults as u64);
         rep.bump("prover-faults/executed", st.faults_run);
         rep.bump("prover-faults/not-landed", st.faults_not_landed);
+        rep.bump("structural/mutants/enumerated-in-document", prep.smuts_total as u64);
+        rep.bump("structural/mutants/selected", prep.smuts.len() as u64);
+        rep.bump("structural/mutants/deserialised(both-verdicts-obtained)", st.s_done);
+        rep.bump("structural/mutants/not-deserialisable", st.s_deser);
+        rep.bump("structural/mutants/no-change", st.s_noop);
+        rep.bump("structural/prover-faults/total", prep.sfaults.len() as u64);
+        rep.bump("structural/prover-faults/executed", st.sf_run);
+        rep.bump("structural/prover-faults/not-landed", st.sf_not_landed);
         shapes.push(json!({"param_point": prep.key, "log_arities": prep.log_arities, "leaves": prep.leaves.len(),
             "leaves_mutated": st.mutated, "deser_failed_mutants": st.deser, "prover_faults": prep.n_faults,
             "prover_faults_executed": st.faults_run, "swept": swept, "exhaustive": exhaustive,
+            "structural_mutants_in_document": prep.smuts_total, "structural_mutants_selected": prep.smuts.len(),
+            "structural_mutants_judged": st.s_done, "structural_mutants_not_deserialisable": st.s_deser,
+            "structural_prover_faults": prep.sfaults.len(), "structural_prover_faults_executed": st.sf_run,
             "circuit_ops": prep.n_ops, "honest_run_us": prep.run_us, "build_ms": prep.build_ms}));
     }
     if shapes.len() > 120 {
